@@ -133,7 +133,7 @@ def replay_js(case):
 
 
 def run(tier):
-    ck = simprops.run_prop(PROP, tier, n_quick=6000, n_thorough=80000, e2e=(400, 5000), all_schedules=(600, 10000))
+    ck = simprops.run_prop(PROP, tier, n_quick=6000, n_thorough=80000, e2e=(400, 5000), all_schedules=(600, 10000), late_targets=(500, 6000))
     r = common.run_workers(jobserver_worker, [(w, (800 if tier == 'thorough' else 25)) for w in range(common.NCPU)])
     ck.merge(r)
     for f in r.failures:
